@@ -120,6 +120,14 @@ func (c *Case) normalise() {
 		if e.E == nil {
 			e.E = []Elem{}
 		}
+		// derived float fields are always computed here (never trusted from the case file)
+		switch {
+		case e.K == "f64" && len(e.V) == 8:
+			f := bitsToF64(e.V)
+			e.I, e.S = floatInt(f), f32bits(float32(f))
+		case e.K == "f32" && len(e.V) == 4:
+			e.I = floatInt(float64(bitsToF32(e.V)))
+		}
 		for j := range e.E {
 			x := &e.E[j]
 			if x.Key == nil {
@@ -133,6 +141,13 @@ func (c *Case) normalise() {
 			}
 			if x.S == nil {
 				x.S = []int{}
+			}
+			switch {
+			case e.Ty == "f64" && len(x.V) == 8:
+				f := bitsToF64(x.V)
+				x.I, x.S = floatInt(f), f32bits(float32(f))
+			case e.Ty == "f32" && len(x.V) == 4:
+				x.I = floatInt(float64(bitsToF32(x.V)))
 			}
 		}
 	}
